@@ -801,7 +801,7 @@ func (a *act) appendOp(args []Val, rtyp types.Type, st *State, reach Term) Val {
 			log.assert(Term{fmt.Sprintf("(forall ((j Int)) (! (=> (and (<= 0 j) (< j %s)) (= (select (select %s %s) (+ %s j)) (select (select %s %s) (+ %s j)))) :pattern ((select (select %s %s) (+ %s j)))))",
 				m.S, nh.S, narr.S, base.S, h.S, t.T[0].S, t.T[1].S, nh.S, narr.S, base.S), SBool})
 		}
-		st.heap[name] = nh
+		e.heapReplace(st, name, nh)
 	}
 	return Val{Typ: rtyp, T: []Term{narr, off, newLen, ncap}}
 }
@@ -836,7 +836,7 @@ func (a *act) copyOp(args []Val, rtyp types.Type, st *State) Val {
 			log.assert(Term{fmt.Sprintf("(forall ((j Int)) (! (=> (and (<= 0 j) (< j %s)) (= (select (select %s %s) (+ %s j)) (select (select %s %s) (+ %s j)))) :pattern ((select (select %s %s) (+ %s j)))))",
 				n.S, nh.S, d.S, doff.S, h.S, src.T[0].S, src.T[1].S, nh.S, d.S, doff.S), SBool})
 		}
-		st.heap[name] = nh
+		e.heapReplace(st, name, nh)
 	}
 	return Val{Typ: rtyp, T: []Term{n}}
 }
